@@ -5,6 +5,7 @@ TIER=quick
 case "$1" in quick|thorough) TIER=$1; shift;; esac
 [ $# -eq 0 ] && set -- 1
 export VERIF_OUT="${VERIF_OUT:-$(mktemp -d /tmp/verif_out_XXXXXX)}"
+mkdir -p "$VERIF_OUT"
 for seed in "$@"; do
   for p in C01 C02 C03 C04 C05 C06 C07 C08 C09 C10 C11 C12 C13 C14 C15 C16 C17 C18 C19 C20; do
     t0=$(date +%s)
